@@ -178,3 +178,53 @@ def gen_tradeoff(rng, k=None, na=None):
         rng.shuffle(studs)
         lecturers.append([lq, tg, uq, tie_groups(rng, studs, rng.choice([0.0, 0.4]))])
     return dict(na=na, n1=k, n2=k, n3=L, first=first, projects=projects, lecturers=lecturers)
+
+
+def enum_small(maxS=2, maxP=2):
+    """Exhaustive small scope: every 2-agent and 3-agent abstract file with S <= maxS students, P <= maxP projects,
+    every ordered selection of projects per student with every tie pattern, upper quotas in {0,1,2} (projects) and
+    lecturer capacities in {0,1,2}, lower quota 0 or 1, one or two lecturers with every project-lecturer assignment;
+    second-side lists in increasing student order with no tie or fully tied.  A few thousand files."""
+    import itertools
+
+    def plists(P):
+        out = [[]]
+        for k in range(1, P + 1):
+            for perm in itertools.permutations(range(1, P + 1), k):
+                for cuts in itertools.product([False, True], repeat=k - 1):
+                    groups = [[perm[0]]]
+                    for x, tie in zip(perm[1:], cuts):
+                        if tie:
+                            groups[-1].append(x)
+                        else:
+                            groups.append([x])
+                    out.append(groups)
+        return out
+    for S in range(1, maxS + 1):
+        for P in range(1, maxP + 1):
+            for first in itertools.product(plists(P), repeat=S):
+                first = [list(map(list, f)) for f in first]
+                for na in (2, 3):
+                    lec_assignments = [list(range(1, P + 1))] if na == 2 else \
+                        [list(a) for L in (1, 2) for a in itertools.product(range(1, L + 1), repeat=P) if max(a) == L or L == 1]
+                    for proj_lec in lec_assignments:
+                        L = P if na == 2 else max(proj_lec)
+                        for puq in itertools.product([0, 1, 2], repeat=P):
+                            if sum(puq) == 0 and P > 1:
+                                continue
+                            for variant in range(2):
+                                projects = [[1 if (variant and puq[j] > 0 and j == 0) else 0, puq[j], proj_lec[j]] for j in range(P)]
+                                lecturers = []
+                                for k in range(1, L + 1):
+                                    if na == 2:
+                                        lq, uq = projects[k - 1][0], projects[k - 1][1]
+                                        tg = uq
+                                    else:
+                                        uq = [2, 1][(k + variant) % 2]
+                                        tg = uq - variant if uq - variant >= 0 else 0
+                                        lq = 0
+                                    studs = [s for s in range(1, S + 1)
+                                             if any(proj_lec[p - 1] == k for g in first[s - 1] for p in g)]
+                                    groups = [] if not studs else ([studs] if variant else [[s] for s in studs])
+                                    lecturers.append([lq, tg, uq, groups])
+                                yield dict(na=na, n1=S, n2=P, n3=L, first=first, projects=projects, lecturers=lecturers)
